@@ -241,6 +241,20 @@ def oracle(line, out):
                 if msg:
                     return "on a wallet object used before (%s): %s" % (tok[2], msg)
         return None
+    if tok[0] == "generate_seq":
+        if v is None:
+            return "two reports in a row failed"
+        r1, r2 = v.split(" ")
+        w2 = tok[1] if tok[5] == "same" else tok[5]
+        for which, args, r in (("first (inspected after the second was produced)", tok[1:5], r1),
+                               ("second", [w2] + tok[6:9], r2)):
+            seed, testnet, mn, pw = master_of(args[0])
+            if indep_master(seed) is None:
+                continue
+            msg = check_report(from_canon(r), seed, testnet, mn, pw, int(args[1]), int(args[2]), int(args[3]))
+            if msg:
+                return "%s report: %s" % (which, msg)
+        return None
     if tok[0] == "json_text":
         if v is None:
             return "JSON rendering failed"
@@ -293,7 +307,17 @@ def oracle(line, out):
 known_match = common.no_known
 
 
+def _seq_cases(rng, tier):
+    """two reports in one process (other wallet, or the same wallet object); the first is looked at afterwards"""
+    n = 2 if tier == "quick" else 40
+    ws = wspecs(rng, 2 * n)
+    for i in range(n):
+        yield "generate_seq %s 0 0 2 %s %d 0 3" % (ws[2 * i], ws[2 * i + 1], rng.choice([0, 1])), "held-report-other-wallet"
+        yield "generate_seq %s 0 0 2 same %d %d %d" % (ws[2 * i], rng.choice([0, 1]), *rng.choice([(0, 2), (1, 4)])), "held-report-same-wallet"
+
+
 def cases(rng, tier):
     from . import extra
     yield from _cases_core(rng, tier)
+    yield from _seq_cases(rng, tier)
     yield from extra.cases_for('papertext', rng, tier)
